@@ -122,7 +122,7 @@ func c11R2(c *Ctx) {
 		if !ok {
 			return
 		}
-		if isNilConst(r.Results[0]) {
+		if isNilConst(retVal(r, 0)) {
 			c.check(factCmp(factsAt(r.Block()), token.LEQ, isFieldLoad("Timeout"), isConstIntV(0)), "getNewTimeout/nil-only-when-disabled", c.ipos(r),
 				"no timer only when the user asked to wait forever (timeout <= 0)", "getNewTimeout returns no timer although a timeout is configured")
 		} else {
